@@ -289,7 +289,13 @@ func newOperator(expr parser.Expr, storage *engstore.SelectorPool, opts *query.O
 			}
 			operators[i] = operator
 		}
-		return exchange.NewCoalesce(model.NewVectorPool(stepsBatch), operators...), nil
+		// Series of different partitions can coincide once the remote
+		// expression has removed the metric name.
+		coalesce := exchange.NewCoalesce(model.NewVectorPool(stepsBatch), operators...)
+		if check, acrossSteps := remoteLabelSetsMustBeDistinct(e); check {
+			return exchange.NewDuplicateLabelCheck(coalesce, acrossSteps), nil
+		}
+		return coalesce, nil
 
 	case *logicalplan.RemoteExecution:
 		qry, err := e.Engine.NewRangeQuery(&promql.QueryOpts{}, e.Query, opts.Start, opts.End, opts.Step)
@@ -337,6 +343,45 @@ func newTimestampSelector(arg parser.Expr, selectorPool *engstore.SelectorPool, 
 			return nil, false, nil
 		}
 	}
+}
+
+// remoteLabelSetsMustBeDistinct reports whether the coalesced results of the
+// remote expressions must not contain the same label set twice. Partial
+// aggregations are exempt: they are meant to meet again in the aggregation
+// above. acrossSteps tells whether equal label sets clash across steps, as for
+// functions over range vectors and negations, or only within one step.
+func remoteLabelSetsMustBeDistinct(c logicalplan.Coalesce) (check, acrossSteps bool) {
+	for _, expr := range c.Expressions {
+		remote, ok := expr.(*logicalplan.RemoteExecution)
+		if !ok {
+			continue
+		}
+		root, err := parser.ParseExpr(remote.Query)
+		if err != nil {
+			return false, false
+		}
+		for {
+			paren, ok := root.(*parser.ParenExpr)
+			if !ok {
+				break
+			}
+			root = paren.Expr
+		}
+		switch e := root.(type) {
+		case *parser.AggregateExpr:
+			return false, false
+		case *parser.UnaryExpr:
+			return true, e.Op == parser.SUB
+		case *parser.Call:
+			for _, arg := range e.Args {
+				if _, ok := arg.(*parser.MatrixSelector); ok {
+					return true, true
+				}
+			}
+		}
+		return true, false
+	}
+	return false, false
 }
 
 func unpackVectorSelector(t *parser.MatrixSelector) (*parser.VectorSelector, []*labels.Matcher, error) {
